@@ -34,8 +34,8 @@ def dihedralOp (toks : List String) : Option String := do
   | some out => pure s!"out={ptsStr out}"
   | none => pure "out=index-error"
 
-/-- `aug.sym K A fai N o | c s swap … (one triple per tiled row) | x y x y …`, numbers are numerators over `2^K` -/
-def symOp (toks : List String) : Option String := do
+def symArgs (toks : List String) :
+    Option (Nat × Bool × Rat × List (Rat × Rat × Bool) × List (List (Rat × Rat))) := do
   let [hd, prm, xs] ← parseSections toks | none
   let [K, A, fai, N, o] := hd | none
   let den : Rat := (2 : Rat) ^ K.toNat
@@ -43,9 +43,44 @@ def symOp (toks : List String) : Option String := do
   let rec triples : List Int → List (Rat × Rat × Bool)
     | c :: s :: w :: r => (q c, q s, w != 0) :: triples r
     | _ => []
-  match stateAugmentationSym (q o) A.toNat (fai != 0) (triples prm) (rowsOf N.toNat (xs.map q)) with
+  pure (A.toNat, fai != 0, q o, triples prm, rowsOf N.toNat (xs.map q))
+
+/-- `aug.sym K A fai N o | c s swap … (RAW draws, one triple per tiled row) | x y x y …`: the model zeroes the first
+`rows // num_augment` angles itself (`symParams`); numbers are numerators over `2^K` -/
+def symOp (toks : List String) : Option String := do
+  let (A, fai, o, prm, rows) ← symArgs toks
+  match stateAugSymDraws o A fai prm rows with
   | some out => pure s!"out={ptsStrRat out}"
   | none => pure "out=index-error"
+
+/-- `aug.symraw …` same arguments, the triples are used as they are (`symmetric_transform` with given angles) -/
+def symRawOp (toks : List String) : Option String := do
+  let (A, fai, o, prm, rows) ← symArgs toks
+  match stateAugmentationSym o A fai prm rows with
+  | some out => pure s!"out={ptsStrRat out}"
+  | none => pure "out=index-error"
+
+/-- `aug.normalize K N | x y x y …` → `min_max_normalize` of the whole tensor (min / max over ALL coordinates) -/
+def normalizeOp (toks : List String) : Option String := do
+  let [hd, xs] ← parseSections toks | none
+  let [K, N] := hd | none
+  let den : Rat := (2 : Rat) ^ K.toNat
+  let vals : List Rat := xs.map fun (v : Int) => ((v : Int) : Rat) / den
+  match vals with
+  | [] => none
+  | v :: vs =>
+    let lo := vs.foldl (fun a b => if b < a then b else a) v
+    let hi := vs.foldl (fun a b => if a < b then b else a) v
+    if hi = lo then pure "out=degenerate"
+    else pure s!"out={ptsStrRat (minMaxNormalize (1 / (hi - lo)) lo (rowsOf N.toNat vals))} ratio={ratStr (1 / (hi - lo))}"
+
+/-- `aug.cache S | v_0 … v_{B-1}` → rows of `PrecomputedCache.batchify(S)` for a `[B]` field -/
+def cacheOp (toks : List String) : Option String := do
+  let [hd, vs] ← parseSections toks | none
+  let [S] := hd | none
+  let x : Rl4co.Ops.Tens Int := { shape := [vs.length], get := fun idx => vs.getD (idx.headD 0) 0 }
+  let y := Rl4co.Eval.cacheReplicate Params.augCacheStartMajor x S.toNat
+  pure s!"rows={intsStr ((List.range (y.shape.headD 0)).map fun r => y.get [r])}"
 
 /-- `aug.swap num den` → the reflection test for `u = num / den` -/
 def swapOp (toks : List String) : Option String := do
@@ -124,7 +159,7 @@ def loopOp (toks : List String) : Option String := do
   pure s!"steps={out.1.length} actions={";".intercalate (acts.map natsStr)}"
 
 def handlers : List (String × (List String → Option String)) :=
-  [("aug.dihedral", dihedralOp), ("aug.sym", symOp), ("aug.swap", swapOp), ("aug.cost", costOp),
+  [("aug.dihedral", dihedralOp), ("aug.sym", symOp), ("aug.symraw", symRawOp), ("aug.normalize", normalizeOp), ("aug.cache", cacheOp), ("aug.swap", swapOp), ("aug.cost", costOp),
    ("aug.inner", innerOp), ("aug.select", selectOp), ("aug.concat", concatOp), ("aug.chunks", chunksOp),
    ("aug.loop", loopOp)]
 
